@@ -31,6 +31,7 @@ type SpecEnv struct {
 	loop     *loopInfo
 	preAlloc string // $alloc at the start of the call (for fresh())
 	what     string
+	quant    bool // inside a quantifier body (terms may mention bound variables)
 }
 
 func (fg *FuncGen) ownEnv(st, old *State) *SpecEnv {
@@ -440,6 +441,22 @@ func (fg *FuncGen) trBin(x *SBin, env *SpecEnv, hint types.Type) Val {
 
 func (fg *FuncGen) trQuant(x *SQuant, env *SpecEnv) Val {
 	enc := fg.enc
+	if strings.HasPrefix(x.Type, "in ") && len(x.Vars) == 1 {
+		// bounded quantifier over a literal range: expanded
+		var lo, hi int
+		if _, err := fmt.Sscanf(strings.TrimSpace(x.Type[3:]), "%d..%d", &lo, &hi); err != nil || hi-lo > 64 {
+			fg.specFail(env, "bad bounded quantifier range %q", x.Type)
+		}
+		var parts []string
+		for i := lo; i < hi; i++ {
+			ne := env.with(x.Vars[0], Val{T: enc.ilit(int64(i)), Typ: types.Typ[types.Int]})
+			parts = append(parts, fg.tr(x.Body, ne, types.Typ[types.Bool]).T)
+		}
+		if x.Forall {
+			return Val{T: and(parts...), Typ: types.Typ[types.Bool]}
+		}
+		return Val{T: or(parts...), Typ: types.Typ[types.Bool]}
+	}
 	var t types.Type = types.Typ[types.Int]
 	if x.Type != "" {
 		t = fg.g.resolveType(x.Type, env.pkg)
@@ -454,6 +471,7 @@ func (fg *FuncGen) trQuant(x *SQuant, env *SpecEnv) Val {
 	for _, v := range x.Vars {
 		name := enc.freshName("q_" + v)
 		ne = ne.with(v, Val{T: q(name), Typ: t})
+		ne.quant = true
 		binders = append(binders, fmt.Sprintf("(%s %s)", q(name), srt))
 		if f := enc.rangeFact(q(name), t); f != "" {
 			facts = append(facts, f)
@@ -518,7 +536,9 @@ func (fg *FuncGen) fieldOf(xv Val, name string, env *SpecEnv) Val {
 				if isStruct(ft) || isArray(ft) {
 					return Val{T: fg.loadRef(env.st, fg.embRef(stT, i, xv.T), ft), Typ: ft}
 				}
-				return Val{T: fmt.Sprintf("(select %s %s)", fg.get(env.st, fg.fieldComp(stT, i)), xv.T), Typ: ft}
+				term := fmt.Sprintf("(select %s %s)", fg.get(env.st, fg.fieldComp(stT, i)), xv.T)
+				fg.specHeapFact(term, ft, env)
+				return Val{T: term, Typ: ft}
 			}
 		}
 		if ct := fg.structContract(stT); ct != nil {
@@ -548,8 +568,10 @@ func (fg *FuncGen) trIndex(x *SIndex, env *SpecEnv) Val {
 	switch u := xv.Typ.Underlying().(type) {
 	case *types.Slice:
 		i := fg.tr(x.I, env, types.Typ[types.Int])
-		idx := enc.iop("+", "(soff "+xv.T+")", fg.toInt(i.T, i.Typ), true)
-		return Val{T: fmt.Sprintf("(select (select %s (sbase %s)) %s)", fg.get(env.st, fg.elemComp(u.Elem())), xv.T, idx), Typ: u.Elem()}
+		idx := enc.at("(soff "+xv.T+")", fg.toInt(i.T, i.Typ), !env.quant)
+		term := fmt.Sprintf("(select (select %s (sbase %s)) %s)", fg.get(env.st, fg.elemComp(u.Elem())), xv.T, idx)
+		fg.specHeapFact(term, u.Elem(), env)
+		return Val{T: term, Typ: u.Elem()}
 	case *types.Array:
 		i := fg.tr(x.I, env, types.Typ[types.Int])
 		return Val{T: fmt.Sprintf("(select %s %s)", xv.T, fg.toInt(i.T, i.Typ)), Typ: u.Elem()}
@@ -714,6 +736,43 @@ func (fg *FuncGen) trCall(x *SCall, env *SpecEnv, hint types.Type) Val {
 	case "isnan":
 		v := arg(0, types.Typ[types.Float64])
 		return Val{T: fmt.Sprintf("(fp.isNaN %s)", v.T), Typ: B}
+	case "oldsame":
+		// oldsame(T.f): every object that existed before the call/function keeps its field f
+		var cs []string
+		for _, a := range x.Args {
+			sel, ok := a.(*SSel)
+			if !ok {
+				fg.specFail(env, "oldsame expects T.f")
+			}
+			var tn string
+			switch q := sel.X.(type) {
+			case *SIdent:
+				tn = q.Name
+			case *SSel:
+				tn = q.String()
+			}
+			t := fg.g.resolveType(tn, env.pkg)
+			if t == nil || !isStruct(t) {
+				fg.specFail(env, "oldsame: %s is not a struct type", tn)
+			}
+			items := fg.structFieldItems(t, sel.Name, "")
+			for _, it := range items {
+				cur, old := fg.get(env.st, it.comp), fg.get(env.old, it.comp)
+				if cur == old {
+					continue
+				}
+				enc.usesQuant = true
+				cs = append(cs, fmt.Sprintf("(forall ((r Int)) (! (=> (< r %s) (= (select %s r) (select %s r))) :pattern ((select %s r))))", env.preAlloc, cur, old, cur))
+			}
+		}
+		return Val{T: and(cs...), Typ: B}
+	case "addr":
+		// addr(G): the address of package-level variable G
+		gl := fg.g.findGlobal(env.pkg, x.Args[0].String())
+		if gl == nil {
+			fg.specFail(env, "addr: unknown global %s", x.Args[0])
+		}
+		return Val{T: fg.globalAddr(gl), Typ: gl.Type()}
 	case "allocated":
 		v := arg(0, nil)
 		return Val{T: fmt.Sprintf("(< %s %s)", v.T, fg.allocTerm(env.st)), Typ: B}
@@ -850,3 +909,20 @@ func (fg *FuncGen) calleeKey(e SExpr, env *SpecEnv) string {
 }
 
 var _ = constant.MakeBool
+
+// specHeapFact: a reference read from the heap in a specification denotes an allocated
+// object (heap well-formedness), exactly as for a load in the code.
+func (fg *FuncGen) specHeapFact(term string, t types.Type, env *SpecEnv) {
+	if env.quant {
+		return
+	}
+	switch t.Underlying().(type) {
+	case *types.Pointer, *types.Map, *types.Slice, *types.Basic:
+		if f := fg.typeFactsTerm(term, t, env.st); f != "" {
+			fg.assume(f)
+		}
+	}
+	if isPtr(t) {
+		fg.assumeObjInvIn(Val{T: term, Typ: t}, env.st)
+	}
+}
